@@ -59,6 +59,8 @@ def _one(args):
     kind = mut.get("kind", "break")
     if kind == "break":
         exp = mut["expect"] if isinstance(mut["expect"], (list, tuple)) else [mut["expect"]]
+        if os.environ.get("VERIF_EXPECT_ONLY"):  # checker development: would these rules alone catch the edit?
+            exp = os.environ["VERIF_EXPECT_ONLY"].split(",")
         if res.errors and mut.get("error_ok"):
             return dict(name=mut["name"], status="armed", detail="analysis-error (accepted)", rules=rules)
         if any(r in exp for r in rules):
